@@ -353,7 +353,7 @@ def rule_empty_block(run):
         "C01.j",
         "CodeBlock.empty(): a block counts as empty iff it holds nothing but comments (abstract evaluation) - the "
         "await-at-start special case is keyed on it, so a block with real statements next to a comment is NOT empty",
-        floor=5,
+        floor=4,
     )
     from ..absint import Interp, Reject
     irr = run.idx.mod(IRR)
@@ -437,11 +437,130 @@ def rule_not_a_return(run):
     c10.rule_returns_always(run)  # break / continue / loops do not end the coroutine: code after them must be lowered
 
 
+def rule_at_start(run):
+    run.begin(
+        "C01.l",
+        "the start-of-process special case (an await/while that finds the first state EMPTY claims it) is reachable only "
+        "for the first statement of the coroutine: every handler that lowers a NESTED body into a fresh child block "
+        "(`ir.CodeBlock([], parent=<block>)` + `self.apply(body, open_blocks=[child])`) has, on every path to that call, "
+        "already appended something to the enclosing code (its own statement, or the Nop marker under "
+        "`ctx.at_start()`), or knows `at_start()` is false - also when the lowering is a speculative attempt that is "
+        "given up afterwards (local helper functions are placed at their call sites)",
+        floor=5,
+    )
+    gen = run.idx.mod(GEN)
+    ai = gen.func("IrGenerator._apply_impl")
+    par = gen.parents
+    FUN = (ast.FunctionDef, ast.AsyncFunctionDef, ast.Lambda)
+
+    def scope_of(n, root):
+        """innermost local function of the handler that contains n (None = the handler's own body)"""
+        for a in par.ancestors(n):
+            if a is root:
+                return None
+            if isinstance(a, FUN):
+                return a
+        return None
+
+    def arm_path(n, root):
+        """[(compound statement, arm)] from the scope root down to n"""
+        out, child = [], n
+        for a in par.ancestors(n):
+            if a is root:
+                break
+            if isinstance(a, (ast.If, ast.For, ast.While, ast.Try, ast.With)):
+                arm = next((fld for fld in ("body", "orelse", "finalbody", "handlers") if any(_contains(x, child) for x in getattr(a, fld, []) or [])), "test")
+                out.append((a, arm))
+            child = a
+        return out[::-1]
+
+    def is_at_start_if(node):
+        return isinstance(node, ast.If) and any(isinstance(c, ast.Call) and isinstance(c.func, ast.Attribute) and c.func.attr == "at_start" for c in ast.walk(node.test))
+
+    n_ev = 0
+    for br in ai.node.body:
+        if not (isinstance(br, ast.If) and isinstance(br.test, ast.Call) and dotted(br.test.func) == "isinstance"):
+            continue
+        hname = dotted(br.test.args[1]) or src(br.test.args[1])
+        local_fns = {f.name: f for f in ast.walk(br) if isinstance(f, (ast.FunctionDef, ast.AsyncFunctionDef))}
+        # child blocks: name = ir.CodeBlock([], parent=<not None>)
+        children = {}
+        for a in ast.walk(br):
+            if isinstance(a, ast.Assign) and isinstance(a.targets[0], ast.Name) and isinstance(a.value, ast.Call) and (dotted(a.value.func) or "").endswith("CodeBlock"):
+                pk = [k.value for k in a.value.keywords if k.arg == "parent"] + a.value.args[1:2]
+                if pk and not (isinstance(pk[0], ast.Constant) and pk[0].value is None):
+                    children[a.targets[0].id] = a
+        applies = []
+        for c in ast.walk(br):
+            if isinstance(c, ast.Call) and dotted(c.func) == "self.apply":
+                ob = [k.value for k in c.keywords if k.arg == "open_blocks"] + c.args[1:2]
+                if ob and isinstance(ob[0], ast.List) and len(ob[0].elts) == 1 and isinstance(ob[0].elts[0], ast.Name) and ob[0].elts[0].id in children:
+                    applies.append((c, ob[0].elts[0].id))
+        if not applies:
+            continue
+        marks = []
+        for c in ast.walk(br):
+            if isinstance(c, ast.Call) and isinstance(c.func, ast.Attribute) and c.func.attr in ("append", "addfront") and c.args and isinstance(c.args[0], ast.Call) \
+                    and (dotted(c.args[0].func) or "").startswith("ir.") and not (isinstance(c.func.value, ast.Name) and c.func.value.id in children):
+                marks.append(c)
+
+        def call_sites(fn):
+            return [c for c in ast.walk(br) if isinstance(c, ast.Call) and isinstance(c.func, ast.Name) and c.func.id == fn.name]
+
+        def anchors(node, depth=0):
+            """positions in the handler's OWN body at which `node` is executed"""
+            sc = scope_of(node, br)
+            if sc is None:
+                return [node]
+            if depth > 6 or isinstance(sc, ast.Lambda):
+                return []
+            out = []
+            for cs in call_sites(sc):
+                out += anchors(cs, depth + 1)
+            return out
+
+        for c, child in applies:
+            n_ev += 1
+            ok_all, why = True, ""
+            sites = [(c, scope_of(c, br))]
+            anc = anchors(c)
+            if scope_of(c, br) is not None:
+                if not anc:
+                    ok_all, why = False, "helper is never called from the handler body"
+                sites += [(a, None) for a in anc]
+            # satisfied if at ANY level (inside the helper or at its call site in the body) a mark dominates
+            def dominated(node, sc):
+                root = sc or br
+                ap = arm_path(node, root)
+                if any(is_at_start_if(a) and arm == "orelse" for a, arm in ap):
+                    return True
+                for m in marks:
+                    if scope_of(m, br) is not sc or m.lineno >= node.lineno:
+                        continue
+                    mp = arm_path(m, root)
+                    while mp and is_at_start_if(mp[-1][0]) and mp[-1][1] == "body":
+                        mp = mp[:-1]
+                    if len(mp) <= len(ap) and all(x[0] is y[0] and x[1] == y[1] for x, y in zip(mp, ap)):
+                        return True
+                return False
+            if ok_all:
+                inner = dominated(c, scope_of(c, br))
+                outer = bool(anc) and all(dominated(a, None) for a in anc) if scope_of(c, br) is not None else False
+                ok_all = inner or outer
+                if not ok_all:
+                    why = "nothing is appended to the enclosing code before the nested body is lowered"
+            run.ob(ok_all, f"_apply_impl[{hname}]", file=gen.rel, line=c.lineno, detail=f"nested-body->{child}",
+                   expected="enclosing state marked as used (statement appended first / Nop under ctx.at_start()) before self.apply(<nested body>)",
+                   found="ok" if ok_all else f"`{src(c)[:60]}`: {why}; an await/while in the nested body takes the empty first state (its code then runs unconditionally in state 0)",
+                   sample=n_ev == 1)
+    run.end()
+
+
 def rule_if_merge(run):
     c03.rule_if_merge(run)
 
 
-RULES = [rule_transitions, rule_states, rule_edges, rule_fail_closed, rule_loop_state, rule_clock_costs, rule_if_merge, rule_straight_line, rule_with_exit, rule_return_paths, rule_empty_block, rule_call_and_await, rule_state_root, rule_not_a_return]
+RULES = [rule_transitions, rule_states, rule_edges, rule_fail_closed, rule_loop_state, rule_clock_costs, rule_if_merge, rule_straight_line, rule_with_exit, rule_return_paths, rule_empty_block, rule_call_and_await, rule_state_root, rule_not_a_return, rule_at_start]
 LEVEL = "other"
 EXPLANATION = (
     "Only the structural core of the coroutine->state-machine translation is decided: transitions are front-inserted "
